@@ -190,8 +190,8 @@ theorem push_full {t : TRing α} {q : List α} (x : α) (h : Abs t.r t.buf q)
 
 /-- `pop` on an EMPTY ring (no test either): the tail steps past the head, the
 ring now reports `size − 1` stored elements (stale slots) and is full. -/
-theorem pop_empty {t : TRing α} (h : Abs t.r t.buf []) :
-    ∃ t', t.pop = some t' ∧ t'.r.size = t.r.size ∧ t'.r.WF ∧
+theorem pop_empty {t : TRing α} (d : α) (h : Abs t.r t.buf []) :
+    ∃ t', t.pop d = some t' ∧ t'.r.size = t.r.size ∧ t'.r.WF ∧
       (ringAvail t'.r).toNat = t.r.size.toNat - 1 ∧ ringFull t'.r = true := by
   obtain ⟨⟨h1, h2⟩, hb, hl, -⟩ := h
   have hlen : t.r.tail.toNat < t.buf.length := by omega
@@ -203,7 +203,7 @@ theorem pop_empty {t : TRing α} (h : Abs t.r t.buf []) :
   have hc : (ringMoveTailOne t.r).cnt = t.r.size.toNat - 1 := by
     simp only [RingHead.cnt, hT, moveTailOne_head, moveTailOne_size, he]
     unfold cntN nextIdx; split <;> split <;> omega
-  refine ⟨⟨ringMoveTailOne t.r, t.buf⟩, by simp [pop, hlen], rfl, wf', ?_, ?_⟩
+  refine ⟨⟨ringMoveTailOne t.r, t.buf.set t.r.tail.toNat d⟩, by simp [pop, hlen], rfl, wf', ?_, ?_⟩
   · rw [avail_toNat _ wf']; exact hc
   · rw [full_iff_cnt _ wf']; exact hc
 
